@@ -25,9 +25,11 @@ import (
 	"sort"
 	"strings"
 	"sync"
+	"time"
 
 	"github.com/goplus/gogen/packages"
 	"github.com/goplus/xgo/ast"
+	"github.com/goplus/xgo/cl"
 	"github.com/goplus/xgo/parser"
 	"github.com/goplus/xgo/token"
 	"github.com/goplus/xgo/x/typesutil"
@@ -408,7 +410,7 @@ func invariants(o *vh.Out, c *checked, origin, caseLine string) {
 				kind := nodeKind(e)
 				if id, ok := e.(*ast.Ident); ok {
 					for _, f := range c.files {
-						if f.IsClass && strings.HasPrefix(filepath.Base(fset.Position(f.Pos()).Filename), id.Name+".") {
+						if cls, _, _ := cl.ClassNameAndExt(fset.Position(f.Pos()).Filename); f.IsClass && cls == id.Name {
 							kind = "Ident:classfile-receiver-type"
 						}
 					}
@@ -651,11 +653,37 @@ func compareWithGo(o *vh.Out, g *goChecked, c *checked, caseLine string) {
 
 // ---- programs ----------------------------------------------------------------------------
 
-func corpus() []string {
+// corpusDirs: every directory of the tree under test (any depth) that holds XGo source files
+// (*.xgo, *.gop, *.gox), in sorted order.  Nested git worktrees / checkouts and hidden directories
+// are skipped.
+func corpusDirs() []string {
+	root := repo()
+	seen := map[string]bool{}
+	filepath.Walk(root, func(path string, fi os.FileInfo, err error) error {
+		if err != nil {
+			return nil
+		}
+		if fi.IsDir() {
+			base := filepath.Base(path)
+			if path != root {
+				if strings.HasPrefix(base, ".") {
+					return filepath.SkipDir
+				}
+				if _, err := os.Stat(filepath.Join(path, ".git")); err == nil {
+					return filepath.SkipDir // somebody's worktree
+				}
+			}
+			return nil
+		}
+		switch filepath.Ext(path) {
+		case ".xgo", ".gop", ".gox":
+			seen[filepath.Dir(path)] = true
+		}
+		return nil
+	})
 	var res []string
-	for _, pat := range []string{"cl/_testgop/*/in.xgo", "cl/_testgop/*/in.gop", "cl/_testgo/*/in.go", "demo/*/*.xgo", "demo/*/*.gop", "doc/_testdata/*/*.xgo", "x/typesutil/testdata/*/*.xgo", "cl/_testc/*/in.xgo", "cl/_testpy/*/in.xgo"} {
-		m, _ := filepath.Glob(filepath.Join(repo(), pat))
-		res = append(res, m...)
+	for d := range seen {
+		res = append(res, d)
 	}
 	sort.Strings(res)
 	return res
@@ -729,6 +757,8 @@ func main() {
 			runGo(seed, idx)
 		case len(fs) == 2 && fs[0] == "corpus":
 			runCorpus(o, filepath.Join(repo(), fs[1]))
+		case len(fs) == 2 && fs[0] == "corpusdir":
+			runCorpusDir(o, filepath.Join(repo(), fs[1]))
 		case len(fs) == 3 && fs[0] == "xgoprog":
 			var seed uint64
 			var idx int
@@ -738,9 +768,25 @@ func main() {
 		}
 		return
 	}
-	for _, p := range corpus() {
-		runCorpus(o, p)
+	capSec := 30.0
+	if f.Tier == "thorough" {
+		capSec = 300
 	}
+	t0 := time.Now()
+	dirs := corpusDirs()
+	// start at a seed-dependent directory so that different seeds cover different parts when the cap cuts
+	start := 0
+	if len(dirs) > 0 {
+		start = int(f.Seed*7919) % len(dirs)
+	}
+	for i := range dirs {
+		if time.Since(t0).Seconds() > capSec {
+			o.Stats["corpus_dirs_skipped_time_cap"] = len(dirs) - i
+			break
+		}
+		runCorpusDir(o, dirs[(start+i)%len(dirs)])
+	}
+	o.Stats["corpus_dirs_total"] = len(dirs)
 	for i := 0; i < f.N; i++ {
 		runGo(f.Seed, i)
 		if i%4 == 0 {
@@ -750,6 +796,56 @@ func main() {
 	o.Stats["go_list_fallbacks"] = nFallback
 }
 
+// runCorpusDir checks the XGo (and Go) files of one directory as a package; if that does not
+// type-check (several packages, unknown class kinds, missing imports …) each XGo file is tried alone.
+func runCorpusDir(o *vh.Out, dir string) {
+	ents, err := os.ReadDir(dir)
+	if err != nil {
+		return
+	}
+	rel, _ := filepath.Rel(repo(), dir)
+	prefix := "" // file names are kept: class type names derive from them
+	srcs := map[string]string{}
+	var xfiles []string
+	for _, e := range ents {
+		n := e.Name()
+		if e.IsDir() || strings.HasPrefix(n, "_") || strings.HasPrefix(n, "gop_autogen") || strings.HasPrefix(n, "xgo_autogen") || strings.HasSuffix(n, "_test.go") {
+			continue
+		}
+		switch filepath.Ext(n) {
+		case ".xgo", ".gop", ".gox":
+			xfiles = append(xfiles, n)
+		case ".go":
+		default:
+			continue
+		}
+		b, err := os.ReadFile(filepath.Join(dir, n))
+		if err != nil {
+			continue
+		}
+		name := prefix + n
+		if strings.HasSuffix(name, ".gop") {
+			name = strings.TrimSuffix(name, ".gop") + ".xgo"
+		}
+		srcs[name] = string(b)
+	}
+	if len(xfiles) == 0 {
+		return
+	}
+	o.Count("corpus_dirs")
+	if len(srcs) > 1 {
+		if c, err := checkXGo(srcs); err == nil && c.panic == "" && len(c.errs) == 0 {
+			o.Count("corpus_packages")
+			o.Count("corpus_programs")
+			invariants(o, c, rel, "corpusdir\t"+rel)
+			return
+		}
+	}
+	for _, n := range xfiles {
+		runCorpus(o, filepath.Join(dir, n))
+	}
+}
+
 func runCorpus(o *vh.Out, path string) {
 	b, err := os.ReadFile(path)
 	if err != nil {
@@ -757,7 +853,7 @@ func runCorpus(o *vh.Out, path string) {
 	}
 	rel, _ := filepath.Rel(repo(), path)
 	line := "corpus\t" + rel
-	name := strings.ReplaceAll(rel, "/", "_")
+	name := filepath.Base(rel)
 	if strings.HasSuffix(name, ".gop") {
 		name = strings.TrimSuffix(name, ".gop") + ".xgo"
 	}
